@@ -418,6 +418,9 @@ struct Unit {
 #[derive(Debug, Clone)]
 enum Verdict {
     Ok,
+    /// passed the first pass, but the confirmation rounds ended before a clean compile of the remaining modules: errors of a
+    /// later compiler phase (pattern / borrow checking) may still be hidden behind other modules' errors - not judged
+    Unconfirmed,
     Permitted(Vec<String>),
     Reject(Vec<(String, String, String)>),
     Syntax(String),
@@ -678,7 +681,7 @@ fn verdicts_for(krate: &Crate, units: &[&Unit], cargo_args: &[&str], log: &str) 
                 }
             }
         }
-        for round in 0..4 {
+        for round in 0..8 {
             if active.is_empty() {
                 confirmed = true;
                 break;
@@ -708,6 +711,11 @@ fn verdicts_for(krate: &Crate, units: &[&Unit], cargo_args: &[&str], log: &str) 
         }
         if !confirmed {
             stats.unconfirmed += active.len();
+            for k in &active {
+                if matches!(verdict.get(k), Some(Verdict::Ok) | None) {
+                    verdict.insert(*k, Verdict::Unconfirmed);
+                }
+            }
         }
         // restore the original text (for --keep)
         for k in permitted_diags.keys() {
@@ -924,6 +932,7 @@ fn sweep_target(t: &Path) {
 fn verdict_sexp(v: &Verdict) -> Sexp {
     match v {
         Verdict::Ok => atom("ok"),
+        Verdict::Unconfirmed => atom("unconfirmed"),
         Verdict::Permitted(k) => tagged("permitted", k.iter().map(|s| string(s.clone())).collect()),
         Verdict::Reject(es) => tagged(
             "reject",
@@ -1034,6 +1043,7 @@ fn mode_check(a: &Args) {
                 let v = &verdicts[k];
                 match v {
                     Verdict::Ok => ok += 1,
+                    Verdict::Unconfirmed => {}
                     Verdict::Permitted(_) => permitted += 1,
                     Verdict::Reject(_) => reject += 1,
                     Verdict::Syntax(_) => syntax += 1,
